@@ -153,7 +153,10 @@ fn lenient_error_class(msg: &str) -> String {
 
 fn qp_error_class(e: &QueryParserError) -> String {
     match e {
-        QueryParserError::SyntaxError(m) => format!("syntax:{}", lenient_error_class(m)),
+        // the strict parser puts the whole query text into the message, the lenient one a fixed
+        // message followed by " at position N"
+        QueryParserError::SyntaxError(m) if m.contains(" at position ") => format!("syntax:{}", lenient_error_class(m)),
+        QueryParserError::SyntaxError(_) => "SyntaxError".to_string(),
         other => {
             let d = format!("{other:?}");
             let end = d.find(|c: char| !c.is_ascii_alphanumeric()).unwrap_or(d.len());
